@@ -317,6 +317,83 @@ pub fn fmate() -> Family {
     }
 }
 
+/// Fdouble: the side to move is in check from two enemy pieces at once (every pair of
+/// checker kinds on every pair of squares from which they attack the king), the king on
+/// corner / edge / near-edge / central squares, optionally one own piece on a neighbouring
+/// square; the enemy king on a menu of squares. Double-check evasion: only king moves,
+/// including captures of an undefended checker.
+pub fn fdouble(full: bool) -> Family {
+    const KSQ: [u8; 8] = [7, 6, 15, 14, 4, 39, 27, 0];
+    Family {
+        name: if full { "Fdouble(full)" } else { "Fdouble" },
+        chunks: KSQ.len() * 16 * 2,
+        gen: Box::new(move |chunk, out| {
+            let mirror = chunk % 2 == 1;
+            let pair = (chunk / 2) % 16;
+            let wk = KSQ[chunk / 32];
+            let kinds = [QUEEN, ROOK, BISHOP, KNIGHT];
+            let (k1, k2) = (kinds[pair / 4], kinds[pair % 4]);
+            // squares from which a piece of the kind attacks the king on an otherwise empty board
+            let from_squares = |kind: u8| -> Vec<u8> {
+                let mut p = Pos::empty();
+                p.b[wk as usize] = KING;
+                (0..64u8)
+                    .filter(|&s| s != wk)
+                    .filter(|&s| {
+                        let mut q = p.clone();
+                        q.b[s as usize] = kind | BLACK;
+                        q.piece_attacks(s) & (1u64 << wk) != 0
+                    })
+                    .collect()
+            };
+            let (s1, s2) = (from_squares(k1), from_squares(k2));
+            let bks: Vec<u8> = if full { (0..64).collect() } else { vec![56, 63, 59, 32, 24, 0, 7, 36] };
+            let mut blockers: Vec<Option<(u8, u8)>> = vec![None];
+            let (f, r) = (file_of(wk), rank_of(wk));
+            for df in -1..=1 {
+                for dr in -1..=1 {
+                    if (df, dr) != (0, 0) {
+                        if let Some(s) = sq_at(f + df, r + dr) {
+                            blockers.push(Some((s, ROOK)));
+                            if full {
+                                blockers.push(Some((s, PAWN)));
+                            }
+                        }
+                    }
+                }
+            }
+            for &a in &s1 {
+                for &b in &s2 {
+                    if a >= b && k1 == k2 {
+                        continue;
+                    }
+                    if a == b {
+                        continue;
+                    }
+                    for &bk in &bks {
+                        for bl in &blockers {
+                            let mut pcs: Vec<(u8, u8)> = vec![(wk, WKING), (bk, BKING), (a, k1 | BLACK), (b, k2 | BLACK)];
+                            if let Some(x) = bl {
+                                pcs.push(*x);
+                            }
+                            if let Some(p) = place(&pcs, true, 0, None) {
+                                // keep genuine double checks only
+                                if p.piece_attacks(a) & (1u64 << wk) == 0 || p.piece_attacks(b) & (1u64 << wk) == 0 {
+                                    continue;
+                                }
+                                let p = if mirror { p.mirror() } else { p };
+                                if p.is_legal_position() {
+                                    out.push(p);
+                                }
+                            }
+                        }
+                    }
+                }
+            }
+        }),
+    }
+}
+
 /// Arbitrary placements for the attack-set property: every ordered pair of pieces of
 /// any kind/colour on any squares (kings not required, pawns on any rank), plus a
 /// third piece from a small menu on every remaining square when `three` is set.
